@@ -67,28 +67,52 @@ func guarded(f func() error) (verdict string) {
 }
 
 var primReaders = map[string]func(r io.Reader, v primitive.ProtocolVersion) error{
-	"ReadByte":             func(r io.Reader, v primitive.ProtocolVersion) error { _, err := primitive.ReadByte(r); return err },
-	"ReadShort":            func(r io.Reader, v primitive.ProtocolVersion) error { _, err := primitive.ReadShort(r); return err },
-	"ReadInt":              func(r io.Reader, v primitive.ProtocolVersion) error { _, err := primitive.ReadInt(r); return err },
-	"ReadLong":             func(r io.Reader, v primitive.ProtocolVersion) error { _, err := primitive.ReadLong(r); return err },
-	"ReadString":           func(r io.Reader, v primitive.ProtocolVersion) error { _, err := primitive.ReadString(r); return err },
-	"ReadLongString":       func(r io.Reader, v primitive.ProtocolVersion) error { _, err := primitive.ReadLongString(r); return err },
-	"ReadBytes":            func(r io.Reader, v primitive.ProtocolVersion) error { _, err := primitive.ReadBytes(r); return err },
-	"ReadShortBytes":       func(r io.Reader, v primitive.ProtocolVersion) error { _, err := primitive.ReadShortBytes(r); return err },
-	"ReadValue":            func(r io.Reader, v primitive.ProtocolVersion) error { _, err := primitive.ReadValue(r, v); return err },
-	"ReadPositionalValues": func(r io.Reader, v primitive.ProtocolVersion) error { _, err := primitive.ReadPositionalValues(r, v); return err },
-	"ReadNamedValues":      func(r io.Reader, v primitive.ProtocolVersion) error { _, err := primitive.ReadNamedValues(r, v); return err },
-	"ReadInet":             func(r io.Reader, v primitive.ProtocolVersion) error { _, err := primitive.ReadInet(r); return err },
-	"ReadInetAddr":         func(r io.Reader, v primitive.ProtocolVersion) error { _, err := primitive.ReadInetAddr(r); return err },
-	"ReadUuid":             func(r io.Reader, v primitive.ProtocolVersion) error { _, err := primitive.ReadUuid(r); return err },
-	"ReadStringList":       func(r io.Reader, v primitive.ProtocolVersion) error { _, err := primitive.ReadStringList(r); return err },
-	"ReadStringMap":        func(r io.Reader, v primitive.ProtocolVersion) error { _, err := primitive.ReadStringMap(r); return err },
-	"ReadStringMultiMap":   func(r io.Reader, v primitive.ProtocolVersion) error { _, err := primitive.ReadStringMultiMap(r); return err },
-	"ReadBytesMap":         func(r io.Reader, v primitive.ProtocolVersion) error { _, err := primitive.ReadBytesMap(r); return err },
-	"ReadReasonMap":        func(r io.Reader, v primitive.ProtocolVersion) error { _, err := primitive.ReadReasonMap(r); return err },
-	"ReadStreamId":         func(r io.Reader, v primitive.ProtocolVersion) error { _, err := primitive.ReadStreamId(r, v); return err },
-	"ReadUnsignedVint":     func(r io.Reader, v primitive.ProtocolVersion) error { _, _, err := primitive.ReadUnsignedVint(r); return err },
-	"ReadVint":             func(r io.Reader, v primitive.ProtocolVersion) error { _, _, err := primitive.ReadVint(r); return err },
+	"ReadByte":   func(r io.Reader, v primitive.ProtocolVersion) error { _, err := primitive.ReadByte(r); return err },
+	"ReadShort":  func(r io.Reader, v primitive.ProtocolVersion) error { _, err := primitive.ReadShort(r); return err },
+	"ReadInt":    func(r io.Reader, v primitive.ProtocolVersion) error { _, err := primitive.ReadInt(r); return err },
+	"ReadLong":   func(r io.Reader, v primitive.ProtocolVersion) error { _, err := primitive.ReadLong(r); return err },
+	"ReadString": func(r io.Reader, v primitive.ProtocolVersion) error { _, err := primitive.ReadString(r); return err },
+	"ReadLongString": func(r io.Reader, v primitive.ProtocolVersion) error {
+		_, err := primitive.ReadLongString(r)
+		return err
+	},
+	"ReadBytes": func(r io.Reader, v primitive.ProtocolVersion) error { _, err := primitive.ReadBytes(r); return err },
+	"ReadShortBytes": func(r io.Reader, v primitive.ProtocolVersion) error {
+		_, err := primitive.ReadShortBytes(r)
+		return err
+	},
+	"ReadValue": func(r io.Reader, v primitive.ProtocolVersion) error { _, err := primitive.ReadValue(r, v); return err },
+	"ReadPositionalValues": func(r io.Reader, v primitive.ProtocolVersion) error {
+		_, err := primitive.ReadPositionalValues(r, v)
+		return err
+	},
+	"ReadNamedValues": func(r io.Reader, v primitive.ProtocolVersion) error {
+		_, err := primitive.ReadNamedValues(r, v)
+		return err
+	},
+	"ReadInet":     func(r io.Reader, v primitive.ProtocolVersion) error { _, err := primitive.ReadInet(r); return err },
+	"ReadInetAddr": func(r io.Reader, v primitive.ProtocolVersion) error { _, err := primitive.ReadInetAddr(r); return err },
+	"ReadUuid":     func(r io.Reader, v primitive.ProtocolVersion) error { _, err := primitive.ReadUuid(r); return err },
+	"ReadStringList": func(r io.Reader, v primitive.ProtocolVersion) error {
+		_, err := primitive.ReadStringList(r)
+		return err
+	},
+	"ReadStringMap": func(r io.Reader, v primitive.ProtocolVersion) error { _, err := primitive.ReadStringMap(r); return err },
+	"ReadStringMultiMap": func(r io.Reader, v primitive.ProtocolVersion) error {
+		_, err := primitive.ReadStringMultiMap(r)
+		return err
+	},
+	"ReadBytesMap":  func(r io.Reader, v primitive.ProtocolVersion) error { _, err := primitive.ReadBytesMap(r); return err },
+	"ReadReasonMap": func(r io.Reader, v primitive.ProtocolVersion) error { _, err := primitive.ReadReasonMap(r); return err },
+	"ReadStreamId": func(r io.Reader, v primitive.ProtocolVersion) error {
+		_, err := primitive.ReadStreamId(r, v)
+		return err
+	},
+	"ReadUnsignedVint": func(r io.Reader, v primitive.ProtocolVersion) error {
+		_, _, err := primitive.ReadUnsignedVint(r)
+		return err
+	},
+	"ReadVint": func(r io.Reader, v primitive.ProtocolVersion) error { _, _, err := primitive.ReadVint(r); return err },
 }
 
 func compOf(s string) compKind {
